@@ -103,6 +103,22 @@ func cmdFn(repo string, args []string) int {
 		fmt.Printf("%-11s %-8s %6.2fs %s  [%s]\n", o.Status, o.Solver, o.Time, o.Name, o.Pos)
 		if d := os.Getenv("GOVC_DUMP"); d != "" && strings.HasSuffix(o.Name, d) {
 			fmt.Println("GOAL:", termPreview(o.Goal, 30000))
+			// the distinct string equalities inside the goal, each printed on its own
+			seen := map[int]bool{}
+			var walk func(t *Term)
+			walk = func(t *Term) {
+				if seen[t.id] {
+					return
+				}
+				seen[t.id] = true
+				if t.Op == "=" && len(t.Args) == 2 && (t.Args[0].S == SStr || t.Args[0].S == SRef) && (t.Args[0].Op == "select" || t.Args[1].Op == "select") {
+					fmt.Println("EQ:", termPreview(t, 3000))
+				}
+				for _, a := range t.Args {
+					walk(a)
+				}
+			}
+			walk(o.Goal)
 		}
 		if o.Status != "discharged" {
 			bad++
